@@ -72,7 +72,10 @@ func both(f, g func()) {
 	run := func(fn func()) {
 		defer wg.Done()
 		atomic.AddInt32(&ready, 1)
-		for atomic.LoadInt32(&goFlag) == 0 {
+		for i := 0; atomic.LoadInt32(&goFlag) == 0; i++ {
+			if i > 20000 {
+				runtime.Gosched() // oversubscribed machine: do not burn the time slice of the goroutine we wait for
+			}
 		}
 		fn()
 	}
